@@ -31,7 +31,7 @@ PROPERTY = "C08"
 LEVEL = "exploration"
 QUICK_N = 40
 SCENARIO_TIMEOUT = 420
-PROBES = ["fresh_interpreter_ok", "schedules_compared", "permutations_compared", "protein_level", "sklearn_learner", "default_model",
+PROBES = ["fresh_interpreter_ok", "schedules_compared", "permutations_compared", "protein_level", "sklearn_learner", "default_model", "best_ranked_rows_are_decoys",
           "order_sensitive_learner", "multi_file", "parquet", "subsampled", "subset_proteins_in_fasta",
           "switches>0", "folds4_all_24_perms"]
 RULE = (
@@ -53,7 +53,8 @@ ASSUMPTIONS = [
 REAL = ["mokapot.read_pin", "mokapot.brew", "mokapot.assign_confidence", "mokapot.read_fasta", "mokapot.picked_protein",
         "scikit-learn learners", "pandas", "pyarrow", "triqler", "a second CPython interpreter per scenario"]
 STUBS = ["joblib.Parallel -> vsim.sched.SimParallel", "estimator -> RecordingLDA/OrderLDA in most runs",
-         "np.random.default_rng(None) -> seeded from the simulator's entropy stream (unseeded generators are a seam)"]
+         "np.random.default_rng(None) -> seeded from the simulator's entropy stream (unseeded generators are a seam)",
+         "np.empty / np.empty_like requested by mokapot code -> poisoned with a value from the entropy stream (uninitialised memory is a seam)"]
 
 
 def make_scenario(seed):
@@ -67,10 +68,12 @@ def make_scenario(seed):
     while folds > 2 and per_file / folds < 45:
         folds -= 1
     learner = rng.choices(["olda", "rlda", "svc", "perc", "default"], weights=[45, 12, 15, 13, 15])[0]
+    if rng.random() < 0.3:
+        dp["top_decoys"] = rng.choice([1, 2])  # the best-ranked entries of every level are decoys
     if learner == "default":
         # brew(model=None, rng=seed): the default model's train_fdr of 0.01 needs a larger, well separated data set
         dp.update(n_files=1, n_spectra=rng.randint(700, 900), shift=3.0, frac_correct=0.6, max_per_spectrum=2,
-                  n_features=rng.randint(4, 5), size_factors=None)
+                  n_features=rng.randint(4, 5), size_factors=None, top_decoys=0)
         per_file = int(dp["n_spectra"] * 1.5)
         folds = 3
     cfg = {
@@ -190,6 +193,7 @@ def run_scenario(scn, workdir):
     probes = {
         "sklearn_learner": int(scn["cfg"]["learner"] in ("svc", "perc")),
         "default_model": int(scn["cfg"]["learner"] == "default"),
+        "best_ranked_rows_are_decoys": int(bool(scn["data"].get("top_decoys"))),
         "order_sensitive_learner": int(scn["cfg"]["learner"] == "olda"),
         "multi_file": int(scn["data"]["n_files"] > 1),
         "parquet": int(scn["format"] == "parquet"),
